@@ -5,6 +5,7 @@ package main
 // (projected), channel closure, both counters, state shape, queue length, stopped flag, heartbeat interval.
 
 import (
+	"os"
 	"bytes"
 	"fmt"
 	"math"
@@ -391,6 +392,18 @@ type rig struct {
 
 func newRig(c cfgT) *rig { return newRigOn(c, nil) }
 
+// newRigFor: RefreshOnLogon means something only on a persistent store, so these configurations run on the file store
+// (reopened at every Logon) and the others on the memory store; the model's store is the same for both (C16).
+func newRigFor(c cfgT) (*rig, func()) {
+	if !c.refresh || c.noPersist {
+		return newRig(c), func() {}
+	}
+	_ = os.MkdirAll("/verif/_build/tmp", 0o755)
+	dir, _ := os.MkdirTemp("/verif/_build/tmp", "sess")
+	r := newRigOn(c, fileStoreFor(c, dir))
+	return r, func() { _ = r.base.Close(); os.RemoveAll(dir) }
+}
+
 // newRigOn builds a session on an existing store (an engine recreated on its persistent store) or on a fresh one.
 func newRigOn(c cfgT, base quickfix.MessageStore) *rig {
 	app := &hApp{refuse: map[int]bool{}, toAppOK: true}
@@ -563,7 +576,8 @@ func runSession(in Sx) Sx {
 	l := in.(List)
 	c := sxCfg(l[0])
 	return Guard(func() Sx {
-		r := newRig(c)
+		r, done := newRigFor(c)
+		defer done()
 		obs := List{}
 		for _, ev := range l[1].(List) {
 			obs = append(obs, r.apply(ev))
